@@ -70,8 +70,13 @@ func lockProbe(call *ast.CallExpr, sel *ast.SelectorExpr) ast.Stmt {
 	var buf bytes.Buffer
 	format.Node(&buf, fset, sel.X)
 	recv := buf.String()
-	src := fmt.Sprintf("package p\nfunc f() { simhook.Await(%q, nil, func() bool { if %s.%s() { %s.%s(); return true }; return false }) }",
-		"auto.lock:"+base+":"+strconv.Itoa(fset.Position(call.Pos()).Line), recv, try, recv, unlock)
+	// the second argument identifies the mutex (address of the receiver expression: no memory is read)
+	kind := "auto.lock:"
+	if sel.Sel.Name == "RLock" {
+		kind = "auto.rlock:"
+	}
+	src := fmt.Sprintf("package p\nfunc f() { simhook.Await(%q, &%s, func() bool { if %s.%s() { %s.%s(); return true }; return false }) }",
+		kind+base+":"+strconv.Itoa(fset.Position(call.Pos()).Line), recv, recv, try, recv, unlock)
 	f, err := parser.ParseFile(token.NewFileSet(), "", src, 0)
 	if err != nil {
 		panic(err)
